@@ -7,7 +7,7 @@ _inventory_altered, _generate_inventory_delta, apply) and
 breezy/git/transform.py (the same for git trees, _generate_index_changes).
 
 T1: the key set of CONFLICT_RESOLVERS, the pass count of resolve_conflicts and
-    four code-variant flags (does InventoryPreviewTree.get_file /
+    five code-variant flags (does InventoryPreviewTree.get_file /
     PreviewTree.is_executable read an unmodified entry at its tree path; do the
     resolvers subscript by_parent()) are read from the source with `ast` and
     written to Generated/C14.lean; Props/C14T1.lean proves that the model has a
@@ -56,9 +56,11 @@ from vlib import env
 
 THEOREMS = [
     "resolve_clean_or_error", "resolve_clean_reached", "resolve_zero_malformed", "run_all_or_nothing",
-    "applyRemovals_get", "applied_disk_eq_final", "preview_entry_eq_final", "preview_eq_apply_disk",
-    "preview_entry_partial", "preview_path_lookup_witness", "git_index_dir_rename_witness",
-    "delta_put_sound", "resolve_versioning_no_contents_sound", "resolve_missing_parent_sound",
+    "resolveOne_no_resolver", "applyRemovals_get", "removal_fields", "applied_disk_eq_final",
+    "preview_entry_eq_final", "preview_eq_apply_disk", "preview_entry_partial",
+    "preview_path_lookup_witness", "git_index_dir_rename_witness",
+    "inventoryAltered_covers", "delta_put_sound", "delta_last_put_wins",
+    "resolve_versioning_no_contents_sound", "resolve_missing_parent_sound", "resolve_missing_parent_cancels",
     "resolve_duplicate_renames", "resolve_duplicate_id_sound",
 ]
 T1_THEOREMS = ["resolver_keys_match", "pass_count_matches", "flags_known"]
@@ -133,7 +135,13 @@ def source_facts():
     children_get = not (_subscripts_by_parent(_func(t, "_reparent_transform_children"))
                         or _subscripts_by_parent(_func(b, "TreeTransformBase._get_potential_orphans"))
                         or _subscripts_by_parent(_func(g, "TreeTransformBase._get_potential_orphans")))
-    return dict(keys=keys, passes=passes, data_bzr=data_bzr, exec_by_tree=exec_by_tree, children_get=children_get)
+    rd = _func(t, "resolve_duplicate")
+    cancel_guarded = any(isinstance(n, ast.If) and any(isinstance(c, ast.Call) and getattr(c.func, "attr", None) == "cancel_creation"
+                                                       for c in ast.walk(n))
+                         and not any(isinstance(c, ast.Call) and getattr(c.func, "attr", None) == "delete_contents" for c in ast.walk(n))
+                         for n in ast.walk(rd))
+    return dict(keys=keys, passes=passes, data_bzr=data_bzr, exec_by_tree=exec_by_tree, children_get=children_get,
+                cancel_guarded=cancel_guarded)
 
 
 def extract(ctx):
@@ -148,12 +156,12 @@ def extract(ctx):
             "/-- `for n in range(N)` in `resolve_conflicts` -/\n"
             "def sourcePassCount : Nat := %d\n"
             "/-- code variant found in the source (bzr trees) -/\n"
-            "def sourceFlagsBzr : Flags := { git := false, dataByTreePath := %s, execByTreePath := %s, childrenGet := %s }\n"
+            "def sourceFlagsBzr : Flags := { git := false, dataByTreePath := %s, execByTreePath := %s, childrenGet := %s, cancelGuarded := %s }\n"
             "/-- code variant found in the source (git trees; GitPreviewTree.get_file reads the tree path) -/\n"
-            "def sourceFlagsGit : Flags := { git := true, dataByTreePath := true, execByTreePath := %s, childrenGet := %s }\n"
+            "def sourceFlagsGit : Flags := { git := true, dataByTreePath := true, execByTreePath := %s, childrenGet := %s, cancelGuarded := %s }\n"
             "end BreezyVerif.C14\n" % (", ".join(ex.lean_str(k) for k in f["keys"]), f["passes"],
-                                        b(f["data_bzr"]), b(f["exec_by_tree"]), b(f["children_get"]),
-                                        b(f["exec_by_tree"]), b(f["children_get"])))
+                                        b(f["data_bzr"]), b(f["exec_by_tree"]), b(f["children_get"]), b(f["cancel_guarded"]),
+                                        b(f["exec_by_tree"]), b(f["children_get"]), b(f["cancel_guarded"])))
     ex.write_if_changed(os.path.join(env.VERIF, "lean/BreezyVerif/Generated/C14.lean"), text)
     ctx.extra["source_facts"] = f
     return "resolver keys=%d passes=%d flags=%s" % (len(f["keys"]), f["passes"], _flags("2a", f))
@@ -170,8 +178,8 @@ def _facts(ctx):
 def _flags(fmt, f):
     tf = lambda x: "T" if x else "F"
     if fmt == "git":
-        return "T" + "T" + tf(f["exec_by_tree"]) + tf(f["children_get"])
-    return "F" + tf(f["data_bzr"]) + tf(f["exec_by_tree"]) + tf(f["children_get"])
+        return "T" + "T" + tf(f["exec_by_tree"]) + tf(f["children_get"]) + tf(f["cancel_guarded"])
+    return "F" + tf(f["data_bzr"]) + tf(f["exec_by_tree"]) + tf(f["children_get"]) + tf(f["cancel_guarded"])
 
 
 # --------------------------------------------------------------------------
